@@ -212,12 +212,12 @@ fn props() -> Vec<Prop> {
             run: scen_exchange::c10,
             quick: 60_000,
             thorough: 3_000_000,
-            subs: &["verdicts"],
+            subs: &["verdicts", "verdicts", "verdicts", "lost-boundaries"],
             level: "exploration",
             rule: "exchanges over request version x original Connection header (close / keep-alive / both / absent) x method x Expect handshake outcome (produced by the simulated timer racing drawn arrival latencies: continued, refused, timed out, late 100) x response version x status (3xx with and without body: Redirect and Cleanup exits) x framing x response Connection values; an all-five-conditions cell is forced in 1 of 12 runs; verdict compared with the set of true close conditions, reason mapped by keyword, and a reusable connection is really reused for a next exchange; distinct = (condition mask, path length, exit state)",
             assumptions: &[A_COMMON, "Connection values exactly 'close' / 'keep-alive' on the original request and the response", "unknown reason wording is counted as unverifiable, not alarmed"],
-            cells_total: 64,
-            cells_what: "(subset of the 5 close conditions that holds) x (Redirect / Cleanup exit)",
+            cells_total: 48,
+            cells_what: "(subset of the 5 close conditions that holds) x (Redirect / Cleanup exit); the 16 cells 'close-delimited body and Redirect exit' cannot occur (a redirect without framing header has no body)",
             exhaustive_note: "",
         },
         Prop {
@@ -315,7 +315,7 @@ fn props() -> Vec<Prop> {
             rule: "three interleaved sub-batches: (0) valid exchanges for every request configuration with 1..4 grammar-aware mutations of the server stream (bit flip, delete, duplicate, splice, decimal bloat, hex bloat, stray CR/LF, header flood, truncation, alphabet garbage; positions biased to structural bytes) under drawn arrival / buffer / timer schedules; (1) byte strings over a 23-symbol protocol alphabet enumerated by the run index - every string up to length 3 in quick, up to length 4 in thorough, drawn strings of length 5..8 beyond - offered to try_read_100, try_response and read in all three framings, one-shot and sliced; (2) oversize items (field name of 65535..70000 bytes, 20..40 digit length, 16..19 digit chunk size, 127..135 fields, five close conditions at once, giant reason / value / chunk extension); after the exchange comes to rest state-advancing calls are made on whatever state is left; every run is non-trivial; distinct = abstract trace (path length, end kind, call count)",
             assumptions: &[A_COMMON, "no claim about which error is returned", "hang detection: per-exchange step budget derived from the message sizes, plus a 30 s wall-clock watchdog per run"],
             cells_total: 16,
-            cells_what: "error site (Await100 / RecvResponse / RecvBody / other) + target call of the alphabet strings (5) + oversize kind (7)",
+            cells_what: "error site (Await100 / RecvResponse / RecvBody) + target call of the alphabet strings (5) + oversize / unsolicited kind (8)",
             exhaustive_note: "alphabet strings: all 14425 strings up to length 3 (quick) / all 346201 up to length 4 (thorough) are enumerated; each is offered to one drawn target call per run",
         },
     ]
